@@ -45,7 +45,7 @@ theorem gen_frame_constants_agree :
 
 theorem gen_report_ids_agree :
     Generated.MbootConsts.reportIds =
-      [("CMD_OUT", Spec.ridCmdOut), ("CMD_IN", Spec.ridCmdIn), ("DATA_OUT", Spec.ridDataOut), ("DATA_IN", Spec.ridDataIn)] := by
+      [("CMD_OUT", Spec.ridCmdOut), ("DATA_OUT", Spec.ridDataOut), ("CMD_IN", Spec.ridCmdIn), ("DATA_IN", Spec.ridDataIn)] := by
   decide
 
 /-- tag, flags and argument count of the command packet every modelled API method builds -/
@@ -79,7 +79,8 @@ def kindOfClass : Option String → RKind
   | some "TrustProvisioningResponse" => .trustProv
   | _ => .plain
 
-/-- the `known_response` table of `parse_cmd_response` is the model's `kindOf`, for every header tag byte -/
+/-- the response-class table of `parse_cmd_response` (wherever it is defined: inline or hoisted; emitted sorted by tag) is the
+    model's `kindOf`, for every header tag byte -/
 theorem gen_response_table_agrees :
     (List.range 256).all (fun t => kindOfClass (Generated.MbootConsts.knownResponses.lookup t) == kindOf t) = true := by
   decide +kernel
@@ -102,9 +103,9 @@ theorem gen_status_codes_agree :
 theorem gen_formats_agree :
     Generated.MbootConsts.fmtSerialCreateFrame = [⟨.little, [1, 1, 2, 2], 1⟩] ∧
     Generated.MbootConsts.fmtSerialFrameCrc = [⟨.little, [1, 1, 2], 1⟩] ∧
-    Generated.MbootConsts.fmtSerialAck = [⟨.little, [1, 1], 0⟩] ∧
+    Generated.MbootConsts.fmtSerialAck = [⟨.native, [1, 1], 0⟩] ∧
     Generated.MbootConsts.fmtPingResponse = [⟨.little, [4, 2, 2], 0⟩] ∧
-    Generated.MbootConsts.fmtSerialPing = [⟨.little, [1, 1], 0⟩, ⟨.little, [1, 1], 1⟩] ∧
+    Generated.MbootConsts.fmtSerialPing = [⟨.native, [1, 1], 0⟩, ⟨.native, [1, 1], 1⟩] ∧
     Generated.MbootConsts.fmtHidCreateFrame = [⟨.little, [1, 1, 2], 0⟩] ∧
     Generated.MbootConsts.fmtHidParseFrame = [⟨.little, [1, 1, 2], 0⟩] ∧
     Generated.MbootConsts.fmtCmdHeaderToBytes = [⟨.native, [1, 1, 1, 1], 0⟩] ∧
@@ -451,11 +452,11 @@ theorem gen_sdp_constants_agree :
     Generated.SdpConsts.commandTags =
       [("READ_REGISTER", Sdp.Spec.cReadRegister), ("WRITE_REGISTER", Sdp.Spec.cWriteRegister), ("WRITE_FILE", Sdp.Spec.cWriteFile),
        ("ERROR_STATUS", Sdp.Spec.cErrorStatus), ("WRITE_CSF", Sdp.Spec.cWriteCsf), ("WRITE_DCD", Sdp.Spec.cWriteDcd),
-       ("SKIP_DCD_HEADER", Sdp.Spec.cSkipDcdHeader), ("JUMP_ADDRESS", Sdp.Spec.cJumpAddress), ("SET_BAUDRATE", 0x0D0D), ("PING", 0x5AA6)] ∧
+       ("JUMP_ADDRESS", Sdp.Spec.cJumpAddress), ("SKIP_DCD_HEADER", Sdp.Spec.cSkipDcdHeader), ("SET_BAUDRATE", 0x0D0D), ("PING", 0x5AA6)] ∧
     Generated.SdpConsts.responseValues =
-      [("WRITE_DATA_OK", Sdp.Spec.rWriteDataOk), ("WRITE_FILE_OK", Sdp.Spec.rWriteFileOk),
-       ("SKIP_DCD_HEADER_OK", Sdp.Spec.rSkipDcdHeaderOk), ("LOCKED", Sdp.Spec.rLocked), ("UNLOCKED", Sdp.Spec.rUnlocked),
-       ("HAB_SUCCESS", 0xF0F0F0F0), ("BAUDRATE_SET", 0x09D00D90)] ∧
+      [("BAUDRATE_SET", 0x09D00D90), ("LOCKED", Sdp.Spec.rLocked), ("WRITE_DATA_OK", Sdp.Spec.rWriteDataOk),
+       ("UNLOCKED", Sdp.Spec.rUnlocked), ("WRITE_FILE_OK", Sdp.Spec.rWriteFileOk),
+       ("SKIP_DCD_HEADER_OK", Sdp.Spec.rSkipDcdHeaderOk), ("HAB_SUCCESS", 0xF0F0F0F0)] ∧
     Generated.SdpConsts.statusCodes =
       [("SUCCESS", Sdp.Spec.stSuccess), ("CMD_FAILURE", 1), ("HAB_IS_LOCKED", Sdp.Spec.stHabIsLocked), ("READ_DATA_FAILURE", 10),
        ("WRITE_REGISTER_FAILURE", Sdp.Spec.stWriteRegisterFailure), ("WRITE_IMAGE_FAILURE", Sdp.Spec.stWriteImageFailure),
@@ -469,7 +470,7 @@ theorem gen_sdp_constants_agree :
     Generated.SdpConsts.sdpsSignatures.lookup "CBW_BLTC_SIGNATURE" = some Sdp.Spec.cbwSignature ∧
     Generated.SdpConsts.sdpsCommandTags = [("FW_DOWNLOAD", Sdp.Spec.cbwFwDownload)] ∧
     Generated.SdpConsts.sdpsCommandFlags.lookup "HOST_TO_DEVICE_DIR" = some 0 ∧
-    Generated.SdpConsts.sdpsCmdFormat = "<3IB2xbI11x" := by decide
+    Generated.SdpConsts.sdpsCmdFormat = "<IIIBxxbIxxxxxxxxxxx" := by decide
 
 /-- the 16-byte SDP command packet (`">HIB2IB"`) is decoded by the ROM to the same fields -/
 theorem sdp_cmd_roundtrip (c : Sdp.Cmd) (h : c.fits) : Sdp.parseCmd c.encode = some c ∧ c.encode.length = 16 :=
